@@ -108,8 +108,15 @@ KERNEL_SYMS = ('WIJ', 'WI', 'WJ', 'DWIJ', 'DWI', 'DWJ', 'WDP', 'GHI', 'GHJ', 'GH
 #   {'mod': <python source of generated equation classes> | None,
 #    'arrays': [{'name','n','props':{p:{'type','stride','kind'}},'consts':{c: len},
 #                'nghost'}],
-#    'groups': [{'real': bool, 'eqs': [{'cls': 'module:Class' | 'gen:Class',
-#                'dest','sources','kw'}]}],
+#    'groups': [G, ...] with
+#       G = {'real': bool, 'eqs': [{'cls': 'module:Class' | 'gen:Class',
+#                'dest','sources','kw'}]}                     (a group of equations)
+#         | {'subs': [G of the first form, ...]}               (one level of sub-groups)
+#       and, on either form, optionally
+#         'name': str              Group(name=...): a profiling label, need not be unique
+#         'cond': {'lt'|'ge': v}   Group(condition=lambda t, dt: t < v  /  t >= v)
+#         'pre' / 'post': {'arr': array, 'prop': p, 'mul'|'add': c}
+#                                  Group(pre=/post=f), f() scales / shifts property p
 #    'kernel': 'CubicSpline', 'dim': 2, 't': .., 'dt': .., 'data_seed': int,
 #    'compile': bool}
 
@@ -510,15 +517,75 @@ def build_arrays(spec):
     return pas
 
 
-def build_equations(spec, modules):
-    groups = []
-    for g in spec['groups']:
+def make_condition(c):
+    v = float(c['lt'] if 'lt' in c else c['ge'])
+    if 'lt' in c:
+        return lambda t, dt: t < v
+    return lambda t, dt: t >= v
+
+
+def make_callback(cb, pas):
+    pa = next(p for p in (pas or []) if p.name == cb['arr'])
+
+    def f():
+        a = pa.get_carray(cb['prop']).get_npy_array()
+        if 'mul' in cb:
+            a *= cb['mul']
+        else:
+            a += cb['add']
+    return f
+
+
+def group_kwargs(g, pas):
+    kw = {}
+    if g.get('name') is not None:
+        kw['name'] = g['name']
+    if g.get('cond'):
+        kw['condition'] = make_condition(g['cond'])
+    for k in ('pre', 'post'):
+        if g.get(k):
+            kw[k] = make_callback(g[k], pas)
+    return kw
+
+
+def build_equations(spec, modules, pas=None):
+    """the user's Group objects; `pas` = the particle arrays the pre/post
+    callables of the spec act on"""
+    def leaf(g):
         eqs = []
         for e in g['eqs']:
             cls = load_class(e['cls'], modules)
             eqs.append(cls(dest=e['dest'], sources=e['sources'], **e['kw']))
-        groups.append(Group(equations=eqs, real=g.get('real', True)))
+        return Group(equations=eqs, real=g.get('real', True), **group_kwargs(g, pas))
+    groups = []
+    for g in spec['groups']:
+        if 'subs' in g:
+            groups.append(Group(equations=[leaf(sg) for sg in g['subs']],
+                                **group_kwargs(g, pas)))
+        else:
+            groups.append(leaf(g))
     return groups
+
+
+def leaf_groups(groups):
+    """[((top, sub|None), group)] of the groups that hold equations, in order"""
+    out = []
+    for i, g in enumerate(groups):
+        if g.has_subgroups:
+            out += [((i, k), sg) for k, sg in enumerate(g.equations)]
+        else:
+            out.append(((i, None), g))
+    return out
+
+
+def spec_nodes(spec):
+    """[((top, sub|None), group spec)] of EVERY group of the spec, parents first"""
+    out = []
+    for i, g in enumerate(spec['groups']):
+        out.append(((i, None), g))
+        for k, sg in enumerate(g.get('subs', [])):
+            out.append(((i, k), sg))
+    return out
 
 
 def get_kernel(spec):
@@ -547,9 +614,40 @@ def call_method(eq, m, avail):
 
 
 def py_execute(pas, groups, kernel, neighbours, t, dt):
+    """the documented meaning of a list of groups: a group runs iff ITS OWN
+    condition(t, dt) holds (or it has none); ITS pre() is called before
+    anything of the group, ITS post() after the group is completed; sub-groups
+    run in order inside their parent, each under its own condition, between its
+    own pre and post."""
+    def guarded(g, body):
+        if g.condition is not None and not g.condition(t, dt):
+            return
+        body()
+
+    def with_pre_post(g, body):
+        if g.pre is not None:
+            g.pre()
+        body()
+        if g.post is not None:
+            g.post()
+
+    def parent_body(g):
+        for sg in g.equations:
+            guarded(sg, lambda: with_pre_post(
+                sg, lambda: py_execute_leaf(pas, sg, kernel, neighbours, t, dt)))
+
+    for g in groups:
+        if g.has_subgroups:
+            guarded(g, lambda: with_pre_post(g, lambda: parent_body(g)))
+        else:
+            guarded(g, lambda: with_pre_post(
+                g, lambda: py_execute_leaf(pas, g, kernel, neighbours, t, dt)))
+
+
+def py_execute_leaf(pas, g, kernel, neighbours, t, dt):
     by = {pa.name: pa for pa in pas}
     V = {pa.name: views(pa) for pa in pas}
-    for g in groups:
+    if True:
         eqs = list(g.equations)
         dests = []
         for e in eqs:
@@ -667,7 +765,10 @@ def parse_generated(code):
      'groups': [[destblock]]}, destblock = {'dest', 'assigns': {lhs: (side, prop)},
      'calls': [(var, meth, [args])], 'srcs': [{'source','assigns','vecsetup',
      'pre': [stmt text], 'calls': [...]}]}"""
-    out = {'decl': {}, 'vec': {}, 'scal': [], 'init': {}, 'groups': []}
+    out = {'decl': {}, 'vec': {}, 'scal': [], 'init': {}, 'groups': [], 'gpos': [],
+           'sites': []}
+    top, sub = -1, None      # where in the group tree the text is (from the
+    #                          template's own structure comments, see below)
     for m in re.finditer(r'^\s*self\.(\w+) = (\w+)\(\*\*equations\[(\d+)\]\.__dict__\)',
                          code, re.M):
         out['init'][m.group(1)] = (m.group(2), int(m.group(3)))
@@ -684,19 +785,50 @@ def parse_generated(code):
         if s.startswith('# Variables.'):
             sect = 'vars'
             continue
-        m = re.match(r'# Group (\S+)\.$', s)
+        # Position in the group tree, taken from the STRUCTURE of the text and
+        # not from the `self.groups[..]` expressions: the n-th `# Group <name>.`
+        # opens the n-th top-level group that has content (all of them here),
+        # `# Doing subgroup k` (k = enumerate index of the template's loop) its
+        # k-th sub-group, `_prof_global = ProfileContext(` ... `_prof_global.stop()`
+        # delimit one do_group; what follows the last sub-group's do_group
+        # belongs to the parent again.
+        m = re.match(r'# Group (.+)\.$', s)
+        if m and not m.group(1).endswith(' done'):
+            sect = 'body'
+            top, sub = top + 1, None
+            cur_g = cur_d = cur_s = None
+            continue
+        m = re.match(r'# Doing subgroup (\d+)$', s)
         if m:
             sect = 'body'
+            sub = int(m.group(1))
+            cur_g = cur_d = cur_s = None
+            continue
+        if sect == 'body' and s.startswith('_prof_global = ProfileContext('):
             cur_g = []
             out['groups'].append(cur_g)
+            out['gpos'].append((top, sub))
             cur_d = cur_s = None
             continue
-        if s.startswith('# Doing subgroup'):
-            sect = 'body'
-            cur_g = []
-            out['groups'].append(cur_g)
-            cur_d = cur_s = None
+        if sect == 'body' and s == '_prof_global.stop()':
+            cur_g = cur_d = cur_s = None
+            sub = None
             continue
+        if sect == 'body':
+            m = re.match(r'(if )?self\.groups\[(\d+)\](?:\.data\[(\d+)\])?\.'
+                         r'(condition\(t, dt\):|pre\(\)|post\(\))$', s)
+            if m and (m.group(1) is not None) == m.group(4).startswith('condition'):
+                out['sites'].append({
+                    'kind': {'c': 'cond', 'p': 'pre' if m.group(4)[1] == 'r' else 'post'}[m.group(4)[0]],
+                    'target': (int(m.group(2)),
+                               None if m.group(3) is None else int(m.group(3))),
+                    'at': (top, sub),
+                    'indent': len(ln) - len(ln.lstrip())})
+                continue
+            if 'self.groups[' in s:
+                out['sites'].append({'kind': '?', 'target': None, 'at': (top, sub),
+                                     'indent': 0, 'text': s})
+                continue
         if sect == 'arrays':
             m = re.match(r'cdef (.+?)\s*(\w+)$', s)
             if m and (m.group(2).startswith('d_') or m.group(2).startswith('s_')):
@@ -716,8 +848,6 @@ def parse_generated(code):
         m = re.match(r'dst = self\.(\w+)$', s)
         if m:
             cur_d = {'dest': m.group(1), 'assigns': {}, 'calls': [], 'srcs': []}
-            if cur_g is None or (cur_g and False):
-                pass
             cur_g.append(cur_d)
             cur_s = None
             continue
@@ -839,9 +969,9 @@ def analyse_program(spec, work, want_code=False):
     from pysph.sph.acceleration_eval_cython_helper import \
         AccelerationEvalCythonHelper
     pas = build_arrays(spec)
-    groups = build_equations(spec, modules)
+    top_groups = build_equations(spec, modules, pas)
     kernel = get_kernel(spec)
-    ae = AccelerationEval(pas, groups, kernel)
+    ae = AccelerationEval(pas, top_groups, kernel)
     helper = AccelerationEvalCythonHelper(ae)
     code = helper.get_code()
     P = parse_generated(code)
@@ -849,8 +979,12 @@ def analyse_program(spec, work, want_code=False):
     if want_code:
         res['code'] = code
     ptoks = ' '.join(parr_token(pa) for pa in pas)
+    # the groups that hold equations (top-level groups and sub-groups), in order
+    leaves = leaf_groups(top_groups)
+    groups = [g for _, g in leaves]
     all_eqs = [e for g in groups for e in g.equations]
-    # driver lines: one per group, one for the whole program (decl / scratch)
+    # driver lines: one per group of equations, one for the whole program
+    # (decl / scratch), one for the call sites of the group callables
 
     def uid(e):
         return next(i for i, x in enumerate(all_eqs) if x is e)
@@ -859,6 +993,70 @@ def analyse_program(spec, work, want_code=False):
             ptoks, ' '.join(eqn_token(e, uid(e)) for e in g.equations)))
     res['lines'].append('wiring %s %s' % (
         ptoks, ' '.join(eqn_token(e, uid(e)) for e in all_eqs)))
+    # ---- call sites of condition / pre / post ------------------------------
+    # model input: the group tree with object identities (what _group_map is
+    # keyed by: the index of the object among all group objects), the names,
+    # and which callables are present
+    objs = []
+    for g in top_groups:
+        objs.append(g)
+        if g.has_subgroups:
+            objs += list(g.equations)
+
+    def gtok(kind, g):
+        return 'G uid=%d kind=%s name=%s cond=%d pre=%d post=%d' % (
+            next(i for i, x in enumerate(objs) if x is g), kind, g.name,
+            g.condition is not None, g.pre is not None, g.post is not None)
+    toks = []
+    for g in top_groups:
+        toks.append(gtok('parent' if g.has_subgroups else 'leaf', g))
+        if g.has_subgroups:
+            toks += [gtok('sub', sg) for sg in g.equations]
+    res['lines'].append('callsites ' + ' '.join(toks))
+
+    def pos_str(p):
+        return '?' if p is None else ('%d' % p[0] if p[1] is None else '%d.%d' % p)
+    res['impl_sites'] = ','.join(
+        '%s@%s>%s' % (st['kind'], pos_str(st['at']), pos_str(st['target']))
+        for st in P['sites']) or '_'
+    # property oracle (independent of the model): the documented meaning of
+    # condition / pre / post is per group -- "if THIS callable returns True the
+    # group is executed", "called before anything in the group", "after the
+    # group is completed" -- so the generated text must, inside the text of each
+    # group (position taken from the template's structure comments), call the
+    # callables of the object at THAT position of self.groups, each once, in
+    # the order condition, pre, [sub-groups], post
+    want_sites = []
+    for i, g in enumerate(top_groups):
+        here = (i, None)
+        if g.condition is not None:
+            want_sites.append(('cond', here))
+        if g.pre is not None:
+            want_sites.append(('pre', here))
+        if g.has_subgroups:
+            for k, sg in enumerate(g.equations):
+                for kind, f in (('cond', sg.condition), ('pre', sg.pre), ('post', sg.post)):
+                    if f is not None:
+                        want_sites.append((kind, (i, k)))
+        if g.post is not None:
+            want_sites.append(('post', here))
+    want_txt = ','.join('%s@%s>%s' % (k, pos_str(p), pos_str(p)) for k, p in want_sites) or '_'
+    if want_txt != res['impl_sites']:
+        bad = [st for st in P['sites'] if st['target'] != st['at']]
+        res['fail'].append((
+            'C02:group-callback-wiring',
+            'call sites (kind@group-the-text-belongs-to>group-whose-callable-is-called): ' + want_txt,
+            res['impl_sites'] + (
+                ' -- e.g. the %s of group %s calls self.groups%s' % (
+                    bad[0]['kind'], pos_str(bad[0]['at']),
+                    '?' if bad[0]['target'] is None else
+                    '[%d]' % bad[0]['target'][0] + ('' if bad[0]['target'][1] is None
+                                                   else '.data[%d]' % bad[0]['target'][1]))
+                if bad else '')))
+    if P['gpos'] != [p for p, _ in leaves]:
+        res['fail'].append(('C02:group-callback-wiring',
+                            'one do_group per group of equations, at %s' % [p for p, _ in leaves],
+                            repr(P['gpos'])))
     var2eq = {}
     for var, (cls, idx) in P['init'].items():
         var2eq[var] = all_eqs[idx] if idx < len(all_eqs) else None
@@ -994,7 +1192,7 @@ def analyse_program(spec, work, want_code=False):
         e = all_eqs[idx] if idx < len(all_eqs) else None
         if e is None or e.__class__.__name__ != cls or e.var_name != var:
             res['fail'].append(('C02:equation-init', 'self.%s = %s(**equations[i].__dict__) with equations[i] that equation' % (var, cls), 'index %d' % idx))
-    res['objs'] = (pas, groups, kernel, ae, helper, code)
+    res['objs'] = (pas, top_groups, kernel, ae, helper, code)
     return res
 
 
@@ -1039,6 +1237,7 @@ def run_program(arg):
         out['impl_canon'] = A['impl_canon']
         out['impl_decl'] = A['impl_decl']
         out['impl_scratch'] = A['impl_scratch']
+        out['impl_sites'] = A['impl_sites']
         out['fail'] = A['fail']
         out['nsyms'] = sorted({t for g in A['parse']['groups'] for db in g
                                for sb in db['srcs'] for t in pre_order(sb['pre'])})
@@ -1059,7 +1258,7 @@ def run_program(arg):
         if spec.get('mod'):
             modules['gen'] = import_generated(spec['mod'], work)
         pas_p = build_arrays(spec)
-        groups_p = build_equations(spec, modules)
+        groups_p = build_equations(spec, modules, pas_p)
         idx = {pa.name: i for i, pa in enumerate(pas)}
         nb = UIntArray()
         # "over the same neighbours": the same NNPS class over the reference
@@ -1072,7 +1271,7 @@ def run_program(arg):
             nnps_p.set_context(idx[sname], idx[dname])
             nnps_p.get_nearest_particles(idx[sname], idx[dname], di, nb)
             return nb.get_npy_array().copy()
-        for g in groups_p:
+        for _, g in leaf_groups(groups_p):
             for e in g.equations:
                 m = sys.modules[e.__class__.__module__]
                 if not hasattr(m, 'declare') and 'declare(' in inspect.getsource(m):
@@ -1082,7 +1281,18 @@ def run_program(arg):
                     m.declare = _decl
                     out.setdefault('notes', []).append(
                         '%s calls declare() without importing it' % m.__name__)
-        ae.compute(spec['t'], spec['dt'])
+        try:
+            ae.compute(spec['t'], spec['dt'])
+        except Exception as e:   # noqa
+            # the compiled evaluation itself raised (e.g. the generated code
+            # called a callable of a group that has none)
+            out['fail'].append(('C02:compute-raises',
+                                'AccelerationEval.compute(t, dt) returns, leaving the values of '
+                                'the Python execution',
+                                '%s: %s | %s' % (type(e).__name__, e, ' <- '.join(
+                                    traceback.format_exc().strip().split('\n')[-4:-1]))))
+            out['time'] = time.time() - t0
+            return out
         try:
             with np.errstate(all='ignore'):
                 py_execute(pas_p, groups_p, get_kernel(spec), neighbours,
@@ -1148,7 +1358,82 @@ def full_props():
     return props
 
 
-def gen_program(rng, compile_=True, big=False):
+CB_PROPS = ['m', 'rho', 'p', 'q0', 'q1', 'au', 'u']     # never x, y, z, h
+GROUP_LABELS = ['correction', 'sweep', 'density', 'stage', 'outer']
+
+
+def gen_callback(rng, names):
+    cb = {'arr': rng.choice(names), 'prop': rng.choice(CB_PROPS)}
+    if rng.random() < 0.5:
+        cb['mul'] = rng.choice([2.0, 0.5, 10.0, -1.0])
+    else:
+        cb['add'] = rng.choice([1.0, -0.5, 3.0])
+    return cb
+
+
+def gen_condition(rng, t, outcome=None):
+    """a condition on t with the wanted outcome at time t (None: either)"""
+    v = rng.choice([0.1, 0.2, 1.0, 2.0])
+    op = rng.choice(['lt', 'ge'])
+    if outcome is not None and ((t < v) if op == 'lt' else (t >= v)) != outcome:
+        op = 'ge' if op == 'lt' else 'lt'
+    return {op: v}
+
+
+def decorate_groups(rng, groups, names, t, mode=None):
+    """group-level features of a list of groups of equations: one level of
+    sub-groups, condition / pre / post callables, explicit `name=` labels --
+    unique, or the SAME label on two or more groups (top-level and/or
+    sub-groups, same or different parents); namesakes get callables of their
+    own, two of them conditions of DIFFERENT outcome at this t"""
+    mode = mode or rng.choice(['plain', 'plain', 'callables', 'unique-names',
+                               'shared-names', 'shared-names'])
+    if mode == 'plain':
+        return groups, mode
+    tops, i = [], 0
+    while i < len(groups):
+        if rng.random() < 0.4:
+            k = rng.choice([1, 2, 2, 3])
+            tops.append({'subs': groups[i:i + k]})
+            i += k
+        else:
+            tops.append(groups[i])
+            i += 1
+    nodes = [g for _, g in spec_nodes({'groups': tops})]
+    for g in nodes:
+        if rng.random() < 0.35:
+            g['cond'] = gen_condition(rng, t, rng.random() < 0.7)
+        for k in ('pre', 'post'):
+            if rng.random() < 0.35:
+                g[k] = gen_callback(rng, names)
+    if mode == 'unique-names':
+        for k, g in enumerate(nodes):
+            if rng.random() < 0.7:
+                g['name'] = '%s_%d' % (rng.choice(GROUP_LABELS), k)
+    elif mode == 'shared-names' and len(nodes) >= 2:
+        labels = rng.sample(GROUP_LABELS, 2)
+        pool = list(nodes)
+        rng.shuffle(pool)
+        n1 = rng.choice([2, 2, 3, len(pool)])
+        classes = [(labels[0], pool[:n1])]
+        rest = pool[n1:]
+        if len(rest) >= 2 and rng.random() < 0.5:
+            classes.append((labels[1], rest))
+        for label, members in classes:
+            for g in members:
+                g['name'] = label
+                for k in ('pre', 'post'):
+                    if k not in g and rng.random() < 0.5:
+                        g[k] = gen_callback(rng, names)
+            # two namesakes with conditions of different outcome; a False one
+            # on a group that holds equations, so that running it shows
+            lo, hi = rng.sample(members, 2)
+            lo['cond'] = gen_condition(rng, t, False)
+            hi['cond'] = gen_condition(rng, t, True)
+    return tops, mode
+
+
+def gen_program(rng, compile_=True, big=False, groups_mode=None):
     """a program of generated equation classes in the documented subset"""
     libm = rng.random() < 0.35
     ks = rng.random() < 0.6
@@ -1161,21 +1446,26 @@ def gen_program(rng, compile_=True, big=False):
     arrays = [{'name': nm, 'n': n + rng.randrange(0, 8), 'props': full_props(),
                'consts': {'c0': 1, 'cv': 3},
                'nghost': rng.choice([0, 0, 2, 4])} for nm in names]
+    groups_mode = groups_mode or rng.choice(['plain', 'plain', 'callables', 'unique-names',
+                                             'shared-names', 'shared-names'])
+    t = rng.choice([0.0, 0.3, 1.5])
     groups = []
-    for _ in range(rng.choice([1, 1, 2])):
+    ngroups = rng.choice([1, 1, 2]) if groups_mode == 'plain' else rng.choice([2, 3, 3, 4])
+    for _ in range(ngroups):
         eqs = []
-        for _ in range(rng.choice([1, 2, 3, 3])):
+        for _ in range(rng.choice([1, 2, 3, 3] if groups_mode == 'plain' else [1, 1, 2])):
             cn, kw = rng.choice(classes)
             dest = rng.choice(names)
             srcs = rng.sample(names, rng.randrange(1, narr + 1))
             eqs.append({'cls': 'gen:' + cn, 'dest': dest, 'sources': srcs,
                         'kw': kw})
         groups.append({'real': rng.random() < 0.7, 'eqs': eqs})
+    groups, groups_mode = decorate_groups(rng, groups, names, t, groups_mode)
     return {'label': 'generated' + ('-libm' if libm else '-arith') +
-            ('-kernel' if ks else ''),
+            ('-kernel' if ks else ''), 'groups_mode': groups_mode,
             'mod': src, 'arrays': arrays, 'groups': groups,
             'kernel': rng.choice(KERNELS[dim]), 'dim': dim,
-            't': rng.choice([0.0, 0.3, 1.5]), 'dt': rng.choice([0.01, 1e-4]),
+            't': t, 'dt': rng.choice([0.01, 1e-4]),
             'data_seed': rng.randrange(1 << 30), 'compile': compile_,
             'tol': 1e-12 if (libm or ks) else 0.0}
 
@@ -1554,7 +1844,7 @@ def check_translator(R, rng, nrounds):
 
 def collect(R, results, tag):
     """driver comparison + verdicts for a batch of analysed programs"""
-    lines = [ln for r in results if r['ok'] for ln in r['lines']]
+    lines = [ln for r in results for ln in r['lines']]
     out = H.run_model('C02', lines) if lines else []
     pos = 0
     for r in results:
@@ -1563,10 +1853,17 @@ def collect(R, results, tag):
             R.count('%s:error' % tag)
             R.note('program %s failed to build/run: %s' % (spec.get('label'), (r['err'] or '')[:400]))
             R.d.setdefault('errors', []).append({'label': spec.get('label'), 'err': r['err']})
-            continue
+            if not r['lines']:
+                continue
+            # the generated source was analysed before the build/run failed:
+            # what the analysis found still counts
         mine = out[pos:pos + len(r['lines'])]
         pos += len(r['lines'])
-        ng = len(r['lines']) - 1
+        ng = len(r['lines']) - 2
+        if mine[ng + 1] != r['impl_sites']:
+            R.disagree({'label': spec.get('label'), 'spec': spec}, mine[ng + 1],
+                       r['impl_sites'], 'call sites of condition/pre/post '
+                       '(kind@enclosing-group>group-referred-to)')
         for gi in range(ng):
             parts = mine[gi].split(' | ')
             model_blocks = ' | '.join(p for p in parts if p.startswith('D '))
@@ -1591,6 +1888,8 @@ def collect(R, results, tag):
         if r.get('inadmissible'):
             R.count('%s:inadmissible-data (CPython raises, C gives inf/nan)' % tag)
         R.count('%s:%s' % (tag, lab.split(':')[0]))
+        for c_ in group_feature_classes(spec):
+            R.count('%s:%s' % (tag, c_))
         R.count('kernel:%s' % spec['kernel'])
         R.count('dim:%d' % spec['dim'])
         for s in r.get('nsyms', []):
@@ -1601,6 +1900,48 @@ def collect(R, results, tag):
                {'label': lab, 'impl': r['impl_canon'][:1], 'model': mine[:1]}
                if len(R.d['samples']) < 5 else None)
         R.d['traces_validated_against_impl'] += 1
+
+
+def group_feature_classes(spec):
+    """what the program's groups exercise (for the input distribution)"""
+    nodes = spec_nodes(spec)
+    out = []
+    if any('subs' in g for _, g in nodes):
+        out.append('groups:with-sub-groups')
+    ncb = sum(1 for _, g in nodes for k in ('cond', 'pre', 'post') if g.get(k))
+    if ncb:
+        out.append('groups:with-condition/pre/post')
+        out.append('group-callables-checked-for-own-index', )
+    by = {}
+    for pos, g in nodes:
+        if g.get('name') is not None:
+            by.setdefault(g['name'], []).append((pos, g))
+    if not by:
+        out.append('group-names:default')
+    elif all(len(v) == 1 for v in by.values()):
+        out.append('group-names:explicit-unique')
+    t = spec['t']
+    for label, members in by.items():
+        if len(members) < 2:
+            continue
+        tops = [p for p, _ in members if p[1] is None]
+        subs = [p for p, _ in members if p[1] is not None]
+        if len(tops) >= 2:
+            out.append('group-names:shared:top+top')
+        if tops and subs:
+            out.append('group-names:shared:top+sub')
+        if len(subs) >= 2:
+            out.append('group-names:shared:sub+sub')
+        outs = set()
+        for _, g in members:
+            c = g.get('cond')
+            if c:
+                outs.add((t < c['lt']) if 'lt' in c else (t >= c['ge']))
+        if len(outs) == 2:
+            out.append('group-names:shared:conditions-of-different-outcome')
+        if sum(1 for _, g in members if any(g.get(k) for k in ('cond', 'pre', 'post'))) >= 2:
+            out.append('group-names:shared:own-callables')
+    return sorted(set(out))
 
 
 def run_batch(specs, work, mode, procs):
@@ -1624,12 +1965,55 @@ def corpus_specs():
         '        d_q1[d_idx] += s_q1[s_idx]*RIJ + EPS\n']) + '\n'
     arrays = [{'name': nm, 'n': 16, 'props': full_props(), 'consts': {'c0': 1, 'cv': 3},
                'nghost': 2} for nm in ('fluid', 'solid')]
+    # (minimised from a seeded defect) groups that share a user-given name: two
+    # top-level groups labelled 'correction' (the first one's condition is False
+    # at t = 0, the second one's True; different pre), two sub-groups labelled
+    # 'sweep' in one parent (True / False, different pre), and the labels used
+    # again across levels -- every group must be run under ITS OWN condition,
+    # between ITS OWN pre and post.  Arithmetic only: exact comparison.
+    src2 = '\n\n'.join([
+        'from pysph.sph.equation import Equation',
+        'class C02CorpusAdd(Equation):\n'
+        '    def __init__(self, dest, sources, ca=1.0):\n'
+        '        self.ca = ca\n'
+        '        super(C02CorpusAdd, self).__init__(dest, sources)\n\n'
+        '    def initialize(self, d_idx, d_q0, d_m):\n'
+        '        d_q0[d_idx] += self.ca*d_m[d_idx]\n',
+        'class C02CorpusSum(Equation):\n'
+        '    def loop(self, d_idx, s_idx, d_q1, s_m):\n'
+        '        d_q1[d_idx] += s_m[s_idx]\n']) + '\n'
+
+    def cb(prop, **kw):
+        d = {'arr': 'fluid', 'prop': prop}
+        d.update(kw)
+        return d
+    summ = {'cls': 'gen:C02CorpusSum', 'dest': 'fluid', 'sources': ['fluid'], 'kw': {}}
+
+    def add(ca):
+        return {'cls': 'gen:C02CorpusAdd', 'dest': 'fluid', 'sources': None, 'kw': {'ca': ca}}
+    same_names = [
+        {'name': 'correction', 'cond': {'ge': 1.0}, 'pre': cb('m', add=1.0),
+         'post': cb('q1', add=3.0), 'real': True, 'eqs': [summ]},
+        {'name': 'correction', 'cond': {'lt': 1.0}, 'pre': cb('m', mul=10.0),
+         'post': cb('q1', mul=2.0), 'real': True, 'eqs': [summ]},
+        {'name': 'outer', 'pre': cb('q0', add=0.5), 'post': cb('q0', mul=-1.0), 'subs': [
+            {'name': 'sweep', 'cond': {'lt': 1.0}, 'pre': cb('m', mul=2.0), 'real': True,
+             'eqs': [add(100.0)]},
+            {'name': 'sweep', 'cond': {'ge': 1.0}, 'pre': cb('m', add=5.0),
+             'post': cb('q0', add=9.0), 'real': False, 'eqs': [add(1000.0)]}]},
+        {'name': 'sweep', 'post': cb('q1', add=7.0), 'subs': [
+            {'name': 'correction', 'cond': {'lt': 0.5}, 'post': cb('m', add=1.0), 'real': True,
+             'eqs': [summ, add(1.0)]}]}]
     return [{'label': 'corpus-src-dst', 'mod': src, 'arrays': arrays,
              'groups': [{'real': True, 'eqs': [
                  {'cls': 'gen:C02CorpusA', 'dest': 'fluid', 'sources': ['solid'], 'kw': {}},
                  {'cls': 'gen:C02CorpusA', 'dest': 'solid', 'sources': ['fluid', 'solid'], 'kw': {}}]}],
              'kernel': 'CubicSpline', 'dim': 2, 't': 0.0, 'dt': 0.01, 'data_seed': 7,
-             'compile': True, 'tol': 1e-12}]
+             'compile': True, 'tol': 1e-12},
+            {'label': 'corpus-groups-sharing-a-name', 'groups_mode': 'shared-names',
+             'mod': src2, 'arrays': arrays, 'groups': same_names,
+             'kernel': 'CubicSpline', 'dim': 2, 't': 0.0, 'dt': 0.01, 'data_seed': 11,
+             'compile': True, 'tol': 0.0}]
 
 
 def main():
@@ -1638,9 +2022,13 @@ def main():
         'cases = (v) block evaluations of every generated code/doc block on random '
         'inputs; (a) sort_precomputed on random tables / key sets and on the real '
         'table, Group._setup_precomputed on random loop signatures; (b) generated '
-        'source of random programs (1-3 arrays, 1-2 groups, 1-3 equations each, '
-        'generated classes in the documented subset or shipped equations) parsed '
-        'and compared with the model wiring; (c) the compiled programs among them '
+        'source of random programs (1-3 arrays, 1-4 groups, 1-3 equations each, '
+        'generated classes in the documented subset or shipped equations; one level of '
+        'sub-groups, condition/pre/post callables, explicit group names: unique or the '
+        'SAME name on several groups / sub-groups with callables of their own and '
+        'conditions of different outcome) parsed and compared with the model wiring, '
+        'every condition/pre/post call site with the position of its own group; '
+        '(c) the compiled programs among them '
         'executed and compared with the pure-Python executor. distinct = distinct '
         'driver line / program spec; non-trivial = sort of >1 key that succeeds, '
         'program with a precomputed symbol or compiled')
@@ -1685,15 +2073,19 @@ def main():
                if shipped_ok(getattr(importlib.import_module(e[0]), e[1]))]
     R.count('shipped-curated-usable', len(shipped))
     t1 = time.time()
-    code_only = [gen_program(rng, compile_=False, big=True)
-                 for _ in range(60 if quick else 400)]
+    # every 4th program has groups / sub-groups that share an explicit name
+    code_only = [gen_program(rng, compile_=False, big=True,
+                             groups_mode='shared-names' if k % 4 == 1 else None)
+                 for k in range(60 if quick else 400)]
     res = run_batch(code_only, work, 'codeonly', procs)
     collect(R, res, 'code-only')
     R.note('tie (b) on %d uncompiled programs took %.0fs' % (len(code_only), time.time() - t1))
     t2 = time.time()
     compiled = list(corpus_specs())
     ngen = 7 if quick else 60
-    compiled += [gen_program(rng, compile_=True) for _ in range(ngen)]
+    compiled += [gen_program(rng, compile_=True,
+                             groups_mode='shared-names' if k % 6 == 1 else None)
+                 for k in range(ngen)]
     pool = list(shipped)
     rng.shuffle(pool)
     nship = 6 if quick else 0
@@ -1721,8 +2113,9 @@ def main():
         # precomputed symbol in use
         rng2 = random.Random(a.seed + 4242)
         extra = []
-        for _ in range(12):
-            s = gen_program(rng2, compile_=True)
+        for k in range(12):
+            s = gen_program(rng2, compile_=True,
+                            groups_mode='shared-names' if k % 3 == 1 else None)
             extra.append(s)
         for k in range(4):
             extra.append(shipped_program(rng2, pool[k * 2:(k + 1) * 2] or pool[:2]))
